@@ -347,6 +347,20 @@ def scale_config(cfg, L):
     return out
 
 
+class _Apply:
+    """stands in for the factor of scale_config: `length * _Apply(f)` is f(length)"""
+    def __init__(self, f):
+        self.f = f
+
+    def __rmul__(self, v):
+        return self.f(v)
+
+
+def map_lengths(cfg, f):
+    """apply f to every length of a configuration (wavelength, radii, centres, detector coordinates)"""
+    return scale_config(cfg, _Apply(f))
+
+
 def _map_index(s, f):
     s = dict(s)
     if "n" in s:
